@@ -60,6 +60,22 @@ def native_check(cfg, env=None, seed=0, scale=1.0):
         if not C.close(st.psi(vv).numpy(), psi) or not C.close(st.probability(vv).numpy(), prob) or not C.close(st.amplitude(vv).numpy(), amp) \
                 or not C.close(st.phase(vv).numpy(), ph) or not C.close(st.psi(vv[-1]).numpy(), psi[:, -1]):
             fails.append(("psi / probability / amplitude / phase of basis states given as a %s tensor differ from the double-precision call" % tname, None))
+    # parameters installed the way a user would (`rbm.weights = nn.Parameter(W)`, requires_grad=True by default) and
+    # evaluated with autograd on: the same values
+    import torch.nn as nn
+    keepp = {(net, n): p for net in st.networks for n, p in getattr(st, net).named_parameters()}
+    try:
+        for (net, n), p in keepp.items():
+            setattr(getattr(st, net), n, nn.Parameter(p.detach().clone()))
+        with torch.enable_grad():
+            psi_g = st.psi(space).detach().numpy()
+            prob_g = st.probability(space).detach().numpy()
+            Zg = float(st.normalization(space))
+        if not C.close(psi_g, psi) or not C.close(prob_g, prob) or not C.close(Zg, Z):
+            fails.append(("parameters that require grad (the default of nn.Parameter), autograd on: psi / probability / normalization differ", None))
+    finally:
+        for (net, n), p in keepp.items():
+            setattr(getattr(st, net), n, p)
     # vector call forms
     for r in (0, 2 ** nv - 1):
         v = space[r]
